@@ -114,12 +114,15 @@ Methods    == {"GET", "POST", "HEAD", "OPTIONS"}
 \* relation of a claim value to the current time (values within an hour of now are never generated)
 ClaimRel(k) == CASE k = "absent" -> "none"
                  [] k \in {"past", "pastf", "neg"} -> "before"      \* integer, non-integer number, negative number
+                 \* "lapsed" (exp only): a moment after the token was made and before it is presented -- the client has exchanged a request with
+                 \* the server, stays idle for more than two seconds, and then presents the token one second after its `exp`
+                 [] k = "lapsed" -> "before"
                  [] k \in {"future", "futuref", "big"} -> "after"   \* integer, non-integer number, number >= 2^64
                  [] OTHER -> "malformed"                            \* not a JSON number: the text does not say
 \* Does the claim admit the current time?  "yes" only for an absent claim or a plain non-negative integer on the right
 \* side of now; "no" for any JSON number on the wrong side; "unspecified" for a number on the right side that is not a
 \* plain integer below 2^64 (an implementation may refuse it as malformed) and for values that are not numbers.
-Plain(k) == k \in {"past", "future"}
+Plain(k) == k \in {"past", "future", "lapsed"}
 ExpAdmits(k)    == CASE ClaimRel(k) = "none" -> "yes" [] ClaimRel(k) = "before" -> "no"
                      [] ClaimRel(k) = "after" -> (IF Plain(k) THEN "yes" ELSE "unspecified") [] OTHER -> "unspecified"
 NotYetAdmits(k) == CASE ClaimRel(k) = "none" -> "yes" [] ClaimRel(k) = "after" -> "no"
@@ -140,7 +143,7 @@ PayloadIsJSON(tok) == tok.pay \notin {"notjson", "empty"}
 \* optional exp/nbf/iat: u64} - unknown fields are ignored by serde, `null` is an absent option
 Decodable(cfg, tok) == /\ PayloadIsJSON(tok)
                        /\ \/ cfg.ptype = "value"
-                          \/ HasClaims(tok) /\ \A c \in {tok.exp, tok.nbf, tok.iat} : c \in {"absent", "past", "future", "null"}
+                          \/ HasClaims(tok) /\ \A c \in {tok.exp, tok.nbf, tok.iat} : c \in {"absent", "past", "future", "null", "lapsed"}
 \* could `issue` of this configuration have written the payload?  (a struct never writes fields it does not have)
 IssuablePayload(cfg, tok) == cfg.ptype = "value" \/ tok.pay = "obj"
 \* header exactly as `issue` writes it for this configuration
@@ -205,7 +208,7 @@ FirstWhy(cfg, tok) == IF \E i \in 1..Len(WhyOrder) : ReasonOf(cfg, tok, WhyOrder
                         ELSE "-"
 
 \* ---- layer (b): jwt.rs `verified` -------------------------------------------------------------------------------
-U64(k) == k \in {"past", "future"}     \* serde_json `as_u64()` is Some(..) only for non-negative integers below 2^64
+U64(k) == k \in {"past", "future", "lapsed"}     \* serde_json `as_u64()` is Some(..) only for non-negative integers below 2^64
 ImplJwt(cfg, tok) ==
   IF tok.method = "OPTIONS" THEN "noerr"                                  \* Err(Response::OK()) before anything else
   ELSE IF tok.via = "rawff" THEN "panic"                                  \* header accessor expects UTF-8
@@ -216,7 +219,7 @@ ImplJwt(cfg, tok) ==
   ELSE IF tok.halg # cfg.alg THEN "err"                                   \* absent: 401, different value: 400
   ELSE IF ~PayloadIsJSON(tok) THEN "err"
   ELSE IF HasClaims(tok) /\ U64(tok.nbf) /\ tok.nbf = "future" THEN "err" \* as_u64().unwrap_or(0) > now
-  ELSE IF HasClaims(tok) /\ U64(tok.exp) /\ tok.exp = "past" THEN "err"   \* as_u64().unwrap_or(u64::MAX) <= now
+  ELSE IF HasClaims(tok) /\ U64(tok.exp) /\ tok.exp \in {"past", "lapsed"} THEN "err"   \* as_u64().unwrap_or(u64::MAX) <= now
   ELSE IF HasClaims(tok) /\ U64(tok.iat) /\ tok.iat = "future" THEN "err"
   ELSE IF ~SigOK(cfg, tok) THEN "err"                                     \* third element of split('.') compared; a fourth is never looked at
   ELSE IF ~Decodable(cfg, tok) THEN "err"                                 \* from_value fails: 500
